@@ -120,6 +120,7 @@ class DriverLog:
     def __init__(self):
         self.writes = []        # (module, parameter, value as received)
         self.returns = {}       # (module, parameter) -> function(value) -> value returned by write_<p>
+        self.read_error = None  # exception instance the next read_bad raises
 
 
 def gen_module_class(rng, dlog=None, writable_all=False):
@@ -144,6 +145,13 @@ def gen_module_class(rng, dlog=None, writable_all=False):
                         return f(value)
                 return value
             attrs['write_' + name] = wfunc
+    if dlog is not None:
+        def read_bad(self):
+            if dlog.read_error is not None:
+                raise dlog.read_error
+            return 0
+        attrs['bad'] = Parameter('a parameter whose read fails on demand', IntRange(), default=0)
+        attrs['read_bad'] = read_bad
     if issubclass(base, Writable):
         def write_target(self, value):
             if dlog is not None:
@@ -677,6 +685,69 @@ def gen_case(rng, desc, big):
 
 
 # ----------------------------------------------------------------------------------------
+# part (c): readParameter whose wake-up is overtaken by a newer message (deterministic schedule, real functions)
+# ----------------------------------------------------------------------------------------
+def impl_wake(desc, case):
+    """schedule: [tx parks the read request] [rx: error_read] [rx: the later lines] [caller wakes up in readParameter].
+    case: {'module', 'param', 'ident', 'lines': [[now, line], ...], 'wake_now'}.  The receive loop and readParameter are the
+    real ones; the transmit side is replaced by what it does (parking the entry in active_requests).
+    -> {'before': cache, 'after': cache, 'calls': calls during the wake, 'raised': exception class or None}"""
+    events = [['reg', 1], ['reg', 2]] + [['line', now, line] for now, line in case['lines']]
+    cbs = {'1': {'kind': 'event', 'key': None, 'behave': 'ok'}, '2': {'kind': 'item', 'key': case['module'], 'behave': 'ok'}}
+    r = Runner(desc, cbs, events)
+    c = r.client
+    entry = [('read', case['ident'], None), r.fc.Event(), None]
+    c.active_requests[('reply', case['ident'])] = entry
+    saved = r.fc.time
+    try:
+        r.run()
+        r.fc.time = r.clock
+        r.clock.now = case['wake_now']
+        for cbid in (1, 2):     # run() cleared the registry: the two observers again, silently (the cache is not empty)
+            spec = cbs[str(cbid)]
+            name = 'updateItem' if spec['kind'] == 'item' else 'updateEvent'
+            c.callbacks.setdefault(name, {}).setdefault(spec['key'], []).append(r.funcs[cbid])
+        before = [[m, p, content_obs(item.value, item.readerror), q4(item.timestamp)] for (m, p), item in c.cache.items()]
+        r.calls = []
+        c.queue_request = lambda *a, **k: entry           # the request was queued before; the caller now only waits
+        c.online = True
+        raised = None
+        try:
+            c.readParameter(case['module'], case['param'])
+        except Exception as e:
+            raised = type(e).__name__
+        after = [[m, p, content_obs(item.value, item.readerror), q4(item.timestamp)] for (m, p), item in c.cache.items()]
+        return {'before': before, 'after': after, 'calls': r.calls, 'raised': raised, 'steps': r.steps}
+    finally:
+        r.fc.time = saved
+        c.callbacks.clear()
+
+
+def gen_wake(rng, desc):
+    names, _classes = err_names()
+    mods = desc['modules']
+    cands = [m for m in mods if any(acc['datainfo'].get('type') != 'command' for acc in mods[m]['accessibles'].values())]
+    if not cands:
+        return None
+    m = rng.choice(cands)
+    params = [(a, acc) for a, acc in mods[m]['accessibles'].items() if acc['datainfo'].get('type') != 'command']
+    a, acc = rng.choice(params)
+    ident = f'{m}:{a}'
+    now = 100.0
+    lines = [[now, 'error_read %s %s' % (ident, json.dumps([rng.choice(names), gen_error_text(rng), {}]))]]
+    for _ in range(rng.choice([0, 1, 1, 2])):
+        now += rng.choice([0, 0.25, 1])
+        r = rng.random()
+        if r < 0.6:
+            lines.append([now, 'update %s %s' % (ident, json.dumps([gen_value(rng, acc['datainfo'], 0.05), {'t': now}]))])
+        elif r < 0.8:
+            lines.append([now, 'error_update %s %s' % (ident, json.dumps([rng.choice(names), gen_error_text(rng), {'t': now}]))])
+        else:
+            lines.append([now, gen_line(rng, desc, now)])
+    return {'module': m, 'acc': a, 'ident': ident, 'lines': lines, 'wake_now': now + rng.choice([0, 0.25, 5])}
+
+
+# ----------------------------------------------------------------------------------------
 # part (b): end to end over the real TCP interface
 # ----------------------------------------------------------------------------------------
 class Served:
@@ -786,6 +857,31 @@ def e2e_case(rng, nvalues, with_proxy, res):
                               'detail': {'type': repr(dt), 'value': repr(v), 'via': via}})
             else:
                 res.nontriv(['e2e', type(dt).__name__, canon(v), canon(expect_back), via])
+        # ---- read errors: every error class of errors.py raised by a driver comes back as that class with that text
+        import frappy.errors as fe
+        classes = sorted((c for c in fe.SECoPError.clsname2class.values() if c.__module__ == 'frappy.errors'), key=lambda c: c.__name__)
+        for cls in rng.sample(classes, 3):
+            m = rng.choice(list(info))
+            text = rng.choice(['boom', 'no answer: timeout', 'HardwareError: nested', ''])
+            dlog.read_error = cls(text)
+            res.evaluations += 1
+            res.count('e2e.read_error')
+            n0 = len(seen)
+            try:
+                item = client.readParameter(m, 'bad')
+                e = item.readerror
+                ok = type(e) is cls and e.args == (text,) and item.value is None
+                shown = repr(item)
+            except Exception as ex:
+                ok, shown = False, 'raised %r' % ex
+            finally:
+                dlog.read_error = None
+            if not ok:
+                fails.append({'sig': 'C12:e2e:read-error:' + cls.__name__,
+                              'what': f'driver raised {cls.__name__}({text!r}) in read_bad of {m}; readParameter gave {shown}',
+                              'detail': {'class': cls.__name__, 'text': text}})
+            else:
+                res.nontriv(['e2e-read-error', cls.__name__, text])
     finally:
         for c in (client,):
             if c is not None:
@@ -967,6 +1063,53 @@ def run(ctx):
                                        'case': {'kind': 'history', 'desc': desc, 'case': scase},
                                        'detail': {'original_events': case['events'], 'verdict': verdict}})
 
+    # ---------- (c) readParameter waking up after newer messages ----------
+    import frappy.client as fc
+    wcases = []
+    if os.path.isdir(cdir):
+        for fn in sorted(os.listdir(cdir)):
+            c = json.load(open(os.path.join(cdir, fn)))
+            if c.get('kind') == 'wake':
+                wcases.append((c['desc'], c['case']))
+    for _ in range(ctx.budget(150, 3000)):
+        d = rng.choice(descs)
+        w = gen_wake(rng, d)
+        if w is not None:
+            wcases.append((d, w))
+    reqs, metas = [], []
+    for desc, case in wcases:
+        cl = fc.SecopClient('fake://verif', log=None)
+        cl._init_descriptive_data(desc)
+        inames = [k[1] for k, v in cl.identifier.items() if v == case['ident']]
+        cl.callbacks.clear()
+        if not inames:
+            continue
+        case = dict(case, param=inames[0])
+        obs = impl_wake(desc, case)
+        reqs.append({'p': PROP, 'k': 'judge_wake', 'before': obs['before'], 'after': obs['after'], 'calls': obs['calls']})
+        metas.append((desc, case, obs))
+    answers = ctx.driver.batch(reqs)
+    for (desc, case, obs), a in zip(metas, answers):
+        res.evaluations += 1
+        res.traces += 1
+        res.count('wake.later_lines=%d' % (len(case['lines']) - 1))
+        if 'driver_error' in a:
+            raise RuntimeError(f'driver error: {a}')
+        changed = obs['before'] != obs['after']
+        res.count('wake.' + ('cache-changed' if changed else 'calls' if obs['calls'] else 'raised' if obs['raised'] else 'quiet'))
+        if len(case['lines']) > 1:
+            res.nontriv(['wake', case['lines']])
+        if obs['raised']:
+            res.violations.append({'sig': 'C12:wake:raises:' + obs['raised'],
+                                   'what': f'readParameter raised {obs["raised"]} after the error reply {case["lines"][0][1]!r}',
+                                   'case': {'kind': 'wake', 'desc': desc, 'case': case}})
+        elif not a['ok']:
+            res.violations.append({'sig': 'C12:wake:stale-error-rewritten',
+                                   'what': 'readParameter woke up after newer messages and wrote the error of its (older) error reply '
+                                           f'over them / called the callbacks a second time: lines={case["lines"]} cache before wake='
+                                           f'{obs["before"]} after={obs["after"]} calls during wake={obs["calls"]}',
+                                   'case': {'kind': 'wake', 'desc': desc, 'case': case}})
+
     # ---------- (b) end to end (implementation only) ----------
     before = set(threading.enumerate())
     nvals = ctx.budget(150, 5000)
@@ -994,6 +1137,17 @@ def replay(ctx, rp):
         print('end-to-end failures are re-run by the generator: VERIF_SEED=%s ./check C12' % rp.get('seed'))
         print(json.dumps(case, indent=1))
         return 1
+    if case['kind'] == 'wake':
+        obs = impl_wake(case['desc'], case['case'])
+        a = ctx.driver.batch([{'p': PROP, 'k': 'judge_wake', 'before': obs['before'], 'after': obs['after'], 'calls': obs['calls']}])[0]
+        print('lines (processed by the receive loop before the caller of readParameter wakes up):')
+        for now, line in case['case']['lines']:
+            print('   ', now, line)
+        print('cache before the wake-up:', json.dumps(obs['before']))
+        print('cache after the wake-up :', json.dumps(obs['after']))
+        print('calls during the wake-up:', json.dumps(obs['calls']), ' raised:', obs['raised'])
+        print('judge :', a)
+        return 0 if a.get('ok') and not obs['raised'] else 1
     desc = case['desc']
     maps = ctx.driver.batch([{'p': PROP, 'k': 'maps', 'desc': desc_summary(desc)}])[0]
     steps, model, verdict, wired = judge_case(ctx, desc, 'replay', maps, case['case'])
